@@ -451,6 +451,7 @@ class FrameP:
 
     # polars.LazyFrame / DataFrame define neither & nor | (frames are combined through expressions): python raises TypeError
     __pyvc_undefined_binops__ = (_ast.BitAnd, _ast.BitOr)
+    rows_in_data_order = True  # (see sort)
 
     def __init__(self, space, cols, sel=None, kind="LazyFrame", name="lf", agg=False):
         self.space = space
@@ -508,6 +509,15 @@ class FrameP:
                    self.agg if agg is None else agg)
         if getattr(self, "may_fail_when_collected", False):
             f.may_fail_when_collected = True
+        # the rows of a projection / filter / collect come in the order of the frame they are taken from
+        f.rows_in_data_order = getattr(self, "rows_in_data_order", True)
+        return f
+
+    def sort(self, by=None, *more, **kw):
+        """the same rows in another ORDER: positional pairing with the data (the i-th failure case with the i-th false entry of a row
+        mask, as failure_cases_metadata does) is no longer meaningful"""
+        f = self.derive()
+        f.rows_in_data_order = False
         return f
 
     # ---- polars API
